@@ -70,7 +70,17 @@ type Op struct {
 	Path string `json:"path,omitempty"`
 
 	// bucket-level / read ops carry their parameters here
-	Arg map[string]any `json:"arg,omitempty"`
+	Arg   map[string]any `json:"arg,omitempty"`
+	View  *ViewOp        `json:"view,omitempty"`
+	Query *QueryOp       `json:"query,omitempty"`
+}
+
+// ViewOp: parameters of the design-document / view pseudo-ops.
+type ViewOp struct {
+	DDoc  string              `json:"ddoc"`
+	Name  string              `json:"name,omitempty"`
+	Specs map[string]ViewSpec `json:"specs,omitempty"` // PutDDoc
+	Q     *ViewQuery          `json:"q,omitempty"`     // View
 }
 
 func (o Op) String() string {
